@@ -1,3 +1,4 @@
 import SupervisorModel.Basic.DriverKit
--- stub: replaced by the property author
-def main : IO Unit := Sv.driverMain []
+import SupervisorModel.Model.Envelope
+import SupervisorModel.Model.Tick
+def main : IO Unit := Sv.driverMain [("envelope", Sv.Envelope.runCase), ("tick", Sv.Tick.runCase)]
